@@ -217,7 +217,16 @@ def run_cli(exe, args, stdin_bytes=None, stdin_path=None, stdout_path=None, env=
     fin = None; fout = None
     try:
         if stdin_path is not None:
-            fin = open(stdin_path, "rb")
+            fin = os.fdopen(os.open(stdin_path, os.O_RDONLY), "rb", buffering=0) if not os.path.isdir(stdin_path) else None
+            if fin is None:
+                dfd = os.open(stdin_path, os.O_RDONLY)        # a directory as stdin: every read() fails with EISDIR
+                try:
+                    p = subprocess.Popen([exe] + list(args), stdin=dfd, stdout=(open(stdout_path, "wb") if stdout_path else subprocess.PIPE),
+                                         stderr=subprocess.PIPE, env=e, cwd=cwd)
+                    out, err = p.communicate(timeout=timeout)
+                    return p.returncode, out or b"", (err or b"").decode("utf-8", "replace")
+                finally:
+                    os.close(dfd)
         if stdout_path is not None:
             fout = open(stdout_path, "wb")
         p = subprocess.Popen([exe] + list(args), stdin=(subprocess.PIPE if stdin_bytes is not None else (fin or subprocess.DEVNULL)),
